@@ -28,6 +28,10 @@ CHECKS["C01"] = ("exploration", "reference-ledger monitor: wallet API observatio
   "after every processed announcement (or burst of chain changes with the handler held) the full observation record of every wallet (UTXO multiset, four balances, per-address balances, gross balance, SyncedTo, mined staking/binding histories) must equal the ledger of the current best chain; histories contain forks of any depth with re-mined/dropped/double-spent rolled-back transactions",
   "trusts the 300-line reference ledger and mass-core's chain database/address index; node announces only the final tip of a reorg; consensus maturity constants lowered per case", "§5 C01")
 
+CHECKS["C09"] = ("exploration", "pending-set model monitor: model driven by the same recv/connect/reorg event sequence vs GetUtxo flags, automatic coin selection, pending history entries, ledger equality and the decoded raw pending buckets",
+  "after every step of seeded interleavings of unconfirmed deliveries with confirming / double-spending blocks and un-confirming reorgs, the wallet's pending bucket must equal the model set with every record decodable, flags and coin selection must respect it and confirmed funds must equal the ledger",
+  "trusts the pending model (purge rules on wallet-owned coins only; children through strangers' outputs unspecified) and the bucket layouts of txmgr/type.go", "§5 C09")
+
 NOT_APPLICABLE = {}
 
 def main():
